@@ -379,6 +379,10 @@ const sigOverlap = "mapping-colliding-destinations"
 func main() {
 	cfg := out.ParseFlags("C06")
 	gin.SetMode(gin.ReleaseMode)
+	if cfg.Extra == "reuse-child" {
+		concurrentChild()
+		return
+	}
 	r := rng.New(cfg.Seed)
 	w := out.NewWriter(cfg, "Verif.Corr.C06", 300)
 	orderDependent := 0
@@ -477,6 +481,9 @@ func main() {
 		}
 	}
 
+	// ------------------------------------------------------------------ instance reuse (corpus)
+	sequentialReuse(w, "reuse-sequential", reuseCorpus())
+
 	// ------------------------------------------------------------------ small scope, exhaustive
 	var vals []interface{}
 	var keys []string
@@ -558,6 +565,19 @@ func main() {
 		fmtCase("random", genCfg(r, doc), doc)
 	}
 
+	// ------------------------------------------------------------------ instance reuse (random, concurrent)
+	nSeq := 50
+	if cfg.Thorough() {
+		nSeq = 1000
+	}
+	var seqs []reuseSeq
+	for i := 0; i < nSeq; i++ {
+		doc := genObj(r, 2+r.Intn(4), 2+r.Intn(4))
+		seqs = append(seqs, reuseSeq{genCfg(r, doc), relatives(r, doc, 3+r.Intn(4))})
+	}
+	sequentialReuse(w, "reuse-sequential-random", seqs)
+	concurrentReuse(w, cfg)
+
 	// ------------------------------------------------------------------ decoder + formatter
 	nResp := 300
 	if cfg.Thorough() {
@@ -578,6 +598,16 @@ func main() {
 					respCase(w, "corpus", c, ic, p, true)
 				}
 			}
+		}
+	}
+	reusePayloads := []interface{}{
+		arr(obj{"a": num("1"), "b": num("2")}), arr(), obj{"collection": arr(num("1")), "a": obj{"b": num("3")}}, arr(num("1"), obj{"a": nil}),
+		obj{"a": num("1")}, nil, arr(arr(), obj{"b": obj{"a": num("4")}}), obj{"a": obj{"b": num("5"), "c": num("6")}, "b": "x"},
+	}
+	for _, c := range []fcfg{{}, {Allow: []string{"collection", "a.b"}}, {Deny: []string{"collection.a", "a.c"}}, {Target: "a", Group: "g"},
+		{Mapping: map[string]string{"collection": "items", "a": "A"}, Group: "g"}} {
+		for _, ic := range []bool{true, false} {
+			proxyReuse(w, c, ic, reusePayloads)
 		}
 	}
 	for i := 0; i < nResp; i++ {
@@ -615,7 +645,7 @@ func main() {
 	w.Meta["format_runs"] = formatRuns
 	w.Meta["repeats_per_configuration"] = repeats
 	w.Meta["inputs_with_run_dependent_output"] = orderDependent
-	w.Close(fmt.Sprintf("corpus %d documents x %d configurations; small scope: every document over the keys x every allow and deny list of <=2 paths (see small_scope) and 8 shaping configurations; random documents (depth<=6, width<=5, keys empty/dotted/non-ASCII, arrays, null) x random target/allow|deny/mapping/group with paths walking the document; decoder+formatter through the http proxy and the gin pipeline (arrays/objects/null/scalars x is_collection); every Format configuration run %d times on fresh copies (map order), a case carries the first observation and whether all runs agreed; nontrivial = some option set", len(corpusDocs), len(corpusCfgs), repeats), true)
+	w.Close(fmt.Sprintf("corpus %d documents x %d configurations; small scope: every document over the keys x every allow and deny list of <=2 paths (see small_scope) and 8 shaping configurations; random documents (depth<=6, width<=5, keys empty/dotted/non-ASCII, arrays, null) x random target/allow|deny/mapping/group with paths walking the document; decoder+formatter through the http proxy and the gin pipeline (arrays/objects/null/scalars x is_collection); instance reuse: one formatter / http proxy per configuration driven through sequences of 3-9 related documents (corpus + random) and hit by 8 goroutines x 150 calls (each distinct (document, observation) pair is a case); every other Format configuration run %d times on fresh copies (map order), a case carries the first observation and whether all runs agreed; nontrivial = some option set", len(corpusDocs), len(corpusCfgs), repeats), true)
 }
 
 // ---- decoder + formatter: http proxy level and whole pipeline behind gin ----
